@@ -150,7 +150,7 @@ def spec_lookup(tbl, kwargs):
         try:
           lt, gt = bool(a < b), bool(b < a)
           if not lt and not gt and not (a == b): ordered = False
-        except TypeError:
+        except Exception:        # TypeError, or AltText refusing the comparison
           ordered = False
         if not ordered: break
       if not ordered: break
@@ -262,9 +262,13 @@ def _wrapped_lookup_one(self, **kwargs):
   ok = (rid == (expected[0] if expected else 0)) if ordered else \
        ((rid in expected) if expected else rid == 0)
   if not ok or not isinstance(rec, _records.Record):
+    dropped = GHOST["replaced_rows"].get((id(self._engine), self.table_id), set())
+    reason = "lookup_one"
+    if rid and rid not in self.row_ids and rid in dropped:
+      reason = "returned-row-was-dropped-by-ReplaceTableData"
     S["viol"].append(("C13.lookup_one", {
       "table": self.table_id, "kwargs": _show_kwargs(shown), "returned": rid,
-      "expected_first_of": expected, "reason": ["lookup_one"]}))
+      "expected_first_of": expected, "reason": [reason]}))
   return rec
 
 
@@ -467,6 +471,9 @@ class C13Monitor(explore.Monitor):
 
   def after(self, st, e, bundle, group, exc):
     v = st.pop("pending", []) + self._drain()
+    # calls made on a table while the bundle was removing it are transitional: nothing of them
+    # can be observed afterwards
+    v = [(c, d) for (c, d) in v if d.get("table") is None or d.get("table") in e.tables]
     if not v: return []
     _flush_counts()
     if st.get("exploring"):
@@ -577,7 +584,9 @@ def main():
     "and Column.convert (trusted here; C22 covers conversion); a cell holding an error has no value "
     "and matches no key; calls with a NaN or unhashable key, and the ORDER of results whose sort "
     "values are not mutually comparable (or NaN, or errors) are outside the statement and skipped "
-    "(counted in coverage.unspecified / coverage.order_unspecified)"]
+    "(counted in coverage.unspecified / coverage.order_unspecified)",
+    "a failing call on a table that no longer exists when the bundle returns (lookups made while "
+    "RemoveTable is tearing the table down) is not reported: nothing of it is observable"]
   rep.coverage["rule"] = (
     "one evaluation = one call of Table.lookup_records / lookup_one_record / TwoWayMap mutator "
     "with its post-condition checked; non-trivial = distinct (table, arguments, returned row ids) "
